@@ -86,24 +86,24 @@ Ltac peel H :=
 Lemma validate_cs_facts p :
   validate_cs p = Ok ->
   exists f a t u, cs_fee p = Some f /\ 0 < f < P18 /\ denom_valid (c_denom (cs_pcf p)) = true
-    /\ c_amt (cs_pcf p) = Some a /\ 0 < a /\ cs_tax p = Some t /\ 0 < t < P18
+    /\ c_amt (cs_pcf p) = Some a /\ 0 < a < two255 /\ cs_tax p = Some t /\ 0 < t < P18
     /\ cs_uni p = Some u /\ 0 <= u < P18.
 Proof.
   unfold validate_cs, in_open01. intros H.
   destruct (cs_fee p) as [f|]; [|discriminate H]. peel H. peel H.
-  destruct (c_amt (cs_pcf p)) as [a|]; [|discriminate H]. peel H. peel H.
+  destruct (c_amt (cs_pcf p)) as [a|]; [|discriminate H]. peel H. peel H. peel H.
   destruct (cs_tax p) as [t|]; [|discriminate H]. peel H.
   destruct (cs_uni p) as [u|]; [|discriminate H]. peel H.
   exists f, a, t, u. repeat split; try reflexivity; try assumption; lia.
 Qed.
 
 Lemma cs_no_panic p o r :
-  validate_cs p = Ok -> cs_small p -> cs_op_wf o -> cs_path p o = Some r -> res_outcome r <> Abort.
+  validate_cs p = Ok -> cs_op_wf o -> cs_path p o = Some r -> res_outcome r <> Abort.
 Proof.
-  intros Hv Hs Hwf Hp.
+  intros Hv Hwf Hp.
   destruct (validate_cs_facts p Hv) as (f & a & t & u & Hf & Hfr & Hd & Ha & Hap & Ht & Htr & Hu & Hur).
   assert (Hnp : forall w, r <> Panic w); [|destruct r; simpl; try discriminate; exfalso; eapply Hnp; reflexivity].
-  intros w. unfold cs_small in Hs. rewrite Ha in Hs. simpl in Hs.
+  intros w.
   destruct o as [bs bf bt s0 t0|x X Y bal|y X Y mx|x T L bal|d T L held|]; simpl in Hp; [| | | | |discriminate Hp];
     injection Hp as <-.
   - (* create pool *)
@@ -149,51 +149,36 @@ Proof.
     repeat match goal with |- context [if ?c then _ else _] => destruct c end; discriminate.
 Qed.
 
-(** the hypothesis [cs_small] cannot be dropped: a validated set that aborts pool creation *)
-Definition cs_big : cs_params :=
-  mkCs (Some 3000000000000000) (mkCoin 1 (Some (2 ^ 256 - 1))) (Some 900000000000000000) (Some 2000000000000000).
-
-Lemma cs_refuted :
-  validate_cs cs_big = Ok /\ cs_op_wf (CsCreatePool 0 0 0 1 1)
-  /\ cs_path cs_big (CsCreatePool 0 0 0 1 1) = Some (Panic 103).
-Proof. repeat split; vm_compute; reflexivity. Qed.
-
 (** *** farm *)
 Lemma validate_fm_facts p :
   validate_fm p = Ok ->
-  exists a t, denom_valid (c_denom (fm_pcf p)) = true /\ c_amt (fm_pcf p) = Some a /\ 0 <= a
+  exists a t, denom_valid (c_denom (fm_pcf p)) = true /\ c_amt (fm_pcf p) = Some a /\ 0 <= a < two255
     /\ fm_tax p = Some t /\ 0 < t < P18.
 Proof.
   unfold validate_fm, in_open01. intros H. peel H.
-  destruct (c_amt (fm_pcf p)) as [a|]; [|discriminate H]. peel H.
+  destruct (c_amt (fm_pcf p)) as [a|]; [|discriminate H]. peel H. peel H.
   destruct (fm_tax p) as [t|]; [|discriminate H]. peel H.
   exists a, t. repeat split; try reflexivity; try assumption; lia.
 Qed.
 
 Lemma fm_no_panic p o r :
-  validate_fm p = Ok -> fm_small p -> fm_path p o = Some r -> res_outcome r <> Abort.
+  validate_fm p = Ok -> fm_path p o = Some r -> res_outcome r <> Abort.
 Proof.
-  intros Hv Hs Hp.
+  intros Hv Hp.
   destruct (validate_fm_facts p Hv) as (a & t & Hd & Ha & Hap & Ht & Htr).
-  unfold fm_small in Hs. rewrite Ha in Hs. simpl in Hs.
-  destruct o as [n bf|]; simpl in Hp; [|discriminate Hp]. injection Hp as <-.
+  destruct o as [n bf|n|]; simpl in Hp; [| |discriminate Hp]; injection Hp as <-.
+  2:{ unfold fm_create_cp. destruct (fm_maxcat p <? n); discriminate. }
   unfold fm_create. destruct (fm_maxcat p <? n); [discriminate|]. rewrite Ha, Hd, Ht.
   pose proof (fee_split_no_panic 200 a t bf ltac:(lia) ltac:(lia)) as Hfs.
   destruct (fee_split 200 true a (Some t) bf) eqn:Efs; try discriminate.
   exfalso. eapply Hfs. reflexivity.
 Qed.
 
-Definition fm_big : fm_params := mkFm (mkCoin 1 (Some (2 ^ 256 - 1))) 2 (Some 900000000000000000).
-
-Lemma fm_refuted :
-  validate_fm fm_big = Ok /\ fm_path fm_big (FmCreatePool 1 0) = Some (Panic 203).
-Proof. repeat split; vm_compute; reflexivity. Qed.
-
 (** *** htlc *)
 Definition asset_ok (a : asset) : Prop :=
   htlc_denom_ok (a_denom a) = true
   /\ (exists l, a_limit a = Some l /\ 0 <= l) /\ (exists b, a_tbl a = Some b /\ 0 <= b)
-  /\ (exists f, a_fixed a = Some f /\ 0 <= f) /\ (exists m, a_min a = Some m /\ 0 < m) /\ (exists x, a_max a = Some x).
+  /\ (exists f m, a_fixed a = Some f /\ 0 <= f /\ a_min a = Some m /\ 0 < m /\ f + m < two256) /\ (exists x, a_max a = Some x).
 
 Lemma validate_assets_ok l : forall seen, validate_assets seen l = Ok -> Forall asset_ok l.
 Proof.
@@ -203,10 +188,13 @@ Proof.
   destruct (a_tbl a) as [tbl|] eqn:Et; [|discriminate H]. peel H. peel H. peel H. peel H.
   destruct (a_fixed a) as [fx|] eqn:Ef; [|discriminate H]. peel H. peel H. peel H. peel H.
   destruct (a_min a) as [mn|] eqn:Em; [|discriminate H]. peel H.
-  destruct (a_max a) as [mx|] eqn:Ex; [|discriminate H]. peel H. peel H.
+  destruct (a_max a) as [mx|] eqn:Ex; [|discriminate H]. peel H. peel H. peel H.
   constructor; [|exact (IH _ H)].
   unfold asset_ok. rewrite El, Et, Ef, Em, Ex.
-  repeat split; try assumption; eexists; try split; try reflexivity; lia.
+  assert (fx + mn < two256).
+  { match goal with E : int_ok (fx + mn) = true |- _ => unfold int_ok in E; apply Z.ltb_lt in E; rewrite Z.abs_eq in E by lia; exact E end. }
+  split; [assumption|]. split; [exists lim; split; [reflexivity|lia]|]. split; [exists tbl; split; [reflexivity|lia]|].
+  split; [exists fx, mn; repeat split; try reflexivity; lia|exists mx; reflexivity].
 Qed.
 
 Lemma find_asset_ok d p a : Forall asset_ok p -> find_asset d p = Some a -> asset_ok a.
@@ -222,9 +210,9 @@ Lemma htlc_denom_valid d : htlc_denom_ok d = true -> denom_valid d = true.
 Proof. unfold htlc_denom_ok, denom_valid. lia. Qed.
 
 Lemma ht_no_panic p o r :
-  validate_ht p = Ok -> ht_small p -> ht_path p o = Some r -> res_outcome r <> Abort.
+  validate_ht p = Ok -> ht_path p o = Some r -> res_outcome r <> Abort.
 Proof.
-  intros Hv Hsm Hp. apply validate_assets_ok in Hv.
+  intros Hv Hp. apply validate_assets_ok in Hv.
   assert (Hnp : forall w, r <> Panic w); [|destruct r; simpl; try discriminate; exfalso; eapply Hnp; reflexivity].
   intros w.
   destruct o as [|d amt sd to lock s bal|d amt s|]; simpl in Hp; [| | |discriminate Hp]; injection Hp as <-.
@@ -237,11 +225,9 @@ Proof.
     rewrite He. discriminate.
   - (* create *)
     unfold ht_create. destruct (find_asset d p) as [a|] eqn:Ef; [|discriminate].
-    destruct (find_asset_ok d p a Hv Ef) as (_ & (lim & El & Hl) & (tbl & Et & Htb) & (fx & Efx & Hfx) & (mn & Em & Hmn) & (mx & Ex)).
+    destruct (find_asset_ok d p a Hv Ef) as (_ & (lim & El & Hl) & (tbl & Et & Htb) & (fx & mn & Efx & Hfx & Em & Hmn & Hsum) & (mx & Ex)).
     assert (Hio : int_ok (fx + mn) = true).
-    { unfold find_asset in Ef. apply find_some in Ef. destruct Ef as [Hin _].
-      unfold ht_small in Hsm. rewrite Forall_forall in Hsm. specialize (Hsm a Hin).
-      rewrite Efx, Em in Hsm. simpl in Hsm. unfold int_ok. apply Z.ltb_lt. rewrite Z.abs_eq by lia. exact Hsm. }
+    { unfold int_ok. apply Z.ltb_lt. rewrite Z.abs_eq by lia. exact Hsum. }
     rewrite Em, Ex, Efx, Hio, (limit_coin_ok 313 _ lim El Hl), (limit_coin_ok 315 _ tbl Et Htb). cbn [negb].
     destruct s as [[[[inc out] cur] tlc]|];
       repeat match goal with |- context [if ?c then _ else _] => destruct c end; discriminate.
@@ -253,14 +239,6 @@ Proof.
     rewrite (limit_coin_ok 313 _ lim El Hl), (limit_coin_ok 315 _ tbl Et Htb).
     repeat match goal with |- context [if ?c then _ else _] => destruct c end; discriminate.
 Qed.
-
-Definition ht_big : ht_params :=
-  [mkAsset 10 (Some 1000000000) false 3600 (Some 50000000) true 2 (Some (2 ^ 256 - 1)) (Some 2000) (Some 100000000) 50 34560].
-
-Lemma ht_refuted :
-  validate_ht ht_big = Ok
-  /\ ht_path ht_big (HtCreate 10 72339 1 2 61 (Some (0, 0, 0, 0)) 100000) = Some (Panic 318).
-Proof. repeat split; vm_compute; reflexivity. Qed.
 
 (** *** service *)
 Lemma validate_sv_facts p :
@@ -275,26 +253,28 @@ Proof.
   exists s, t. repeat split; try reflexivity; try assumption; lia.
 Qed.
 
-Lemma sv_no_panic p o r :
-  validate_sv p = Ok -> sv_small p -> sv_op_wf o -> sv_path p o = Some r -> res_outcome r <> Abort.
+Lemma sv_deposit_enough_ok p price dep :
+  0 < sv_mult p -> 0 <= price -> exists b, sv_deposit_enough p price dep = inr b.
 Proof.
-  intros Hv Hsm Hwf Hp.
+  intros Hm Hp. unfold sv_deposit_enough. cbv zeta.
+  assert (0 <= price * sv_mult p) by (apply Z.mul_nonneg_nonneg; lia).
+  destruct (negb (int_ok (price * sv_mult p))); [eexists; reflexivity|].
+  destruct (price * sv_mult p <? 0) eqn:En; [lia|]. eexists. reflexivity.
+Qed.
+
+Lemma sv_no_panic p o r :
+  validate_sv p = Ok -> sv_op_wf o -> sv_path p o = Some r -> res_outcome r <> Abort.
+Proof.
+  intros Hv Hwf Hp.
   destruct (validate_sv_facts p Hv) as (s & t & Hm & Hs & Hsr & Ht & Htr & Hd).
   assert (Hnp : forall w, r <> Panic w); [|destruct r; simpl; try discriminate; exfalso; eapply Hnp; reflexivity].
   intros w.
-  destruct o as [price dep qos bal|to|fee esc|deps|]; simpl in Hp; [| | | |discriminate Hp]; injection Hp as <-.
+  destruct o as [price dep qos bal pd|to|fee esc|deps|av price dep add qos bal|av price dep add bal|av dep dis now
+                 |cm cap to ct cf tot bat|];
+    simpl in Hp; try discriminate Hp; injection Hp as <-.
   - (* bind *)
-    unfold sv_bind. simpl in Hwf. cbv zeta.
-    assert (0 <= price * sv_mult p) by (apply Z.mul_nonneg_nonneg; lia).
-    assert (Hio : int_ok (price * sv_mult p) = true).
-    { unfold int_ok. apply Z.ltb_lt. rewrite Z.abs_eq by assumption. unfold sv_small in Hsm.
-      assert (price * sv_mult p <= two192 * 2 ^ 63).
-      { apply Z.mul_le_mono_nonneg; lia. }
-      assert (two192 * 2 ^ 63 < two256) by (vm_compute; reflexivity). lia. }
-    destruct (negb (sv_base p =? 1)); [discriminate|].
-    destruct (_ <? qos); [discriminate|].
-    rewrite Hio. cbn [negb].
-    destruct (price * sv_mult p <? 0) eqn:En; [lia|].
+    unfold sv_bind. simpl in Hwf.
+    destruct (sv_deposit_enough_ok p price dep Hm Hwf) as [b ->].
     repeat match goal with |- context [if ?c then _ else _] => destruct c end; discriminate.
   - (* call *)
     unfold sv_call. repeat match goal with |- context [if ?c then _ else _] => destruct c end; discriminate.
@@ -314,28 +294,31 @@ Proof.
       pose proof (tax_bounds d s ltac:(lia) ltac:(lia)) as [Hq0 _].
       destruct (dec_truncate_int (d * s) <? 0) eqn:E1; [lia|reflexivity]. }
     rewrite Hw0. change (0 =? 0) with true. cbv iota. exact (IH Hrest).
+  - (* update binding *)
+    unfold sv_update. simpl in Hwf. cbv zeta.
+    destruct (sv_deposit_enough_ok p price (dep + add) Hm Hwf) as [b ->].
+    repeat match goal with |- context [if ?c then _ else _] => destruct c end; discriminate.
+  - (* enable binding *)
+    unfold sv_enable. simpl in Hwf.
+    destruct (sv_deposit_enough_ok p price (dep + add) Hm Hwf) as [b ->].
+    repeat match goal with |- context [if ?c then _ else _] => destruct c end; discriminate.
+  - (* refund deposit *)
+    unfold sv_refund. repeat match goal with |- context [if ?c then _ else _] => destruct c end; discriminate.
+  - (* update request context *)
+    unfold sv_update_ctx. cbv zeta.
+    repeat match goal with |- context [if ?c then _ else _] => destruct c end; discriminate.
 Qed.
-
-Definition sv_big : sv_params :=
-  mkSv 100 (2 ^ 62) [mkCoin 1 (Some 5000)] (Some 50000000000000000) (Some 1000000000000000) 1296000000000000 432000000000000 4000 1 false.
-
-(** the same bind under the defaults is an ordinary rejection *)
-Lemma sv_refuted :
-  validate_sv sv_big = Ok /\ sv_small sv_big
-  /\ sv_path sv_big (SvBind (2 ^ 200) 5000 3 1000000) = Some (Panic 402)
-  /\ sv_path sv_defaults (SvBind (2 ^ 200) 5000 3 1000000) = Some Reject.
-Proof. repeat split; vm_compute; reflexivity. Qed.
 
 (** *** token *)
 Lemma validate_tk_facts p :
   validate_tk p = Ok ->
   exists t r a, tk_tax p = Some t /\ 0 <= t <= P18 /\ tk_ratio p = Some r /\ 0 <= r <= P18
-    /\ denom_valid (c_denom (tk_fee p)) = true /\ c_amt (tk_fee p) = Some a /\ 0 <= a.
+    /\ denom_valid (c_denom (tk_fee p)) = true /\ c_amt (tk_fee p) = Some a /\ 0 <= a < two195.
 Proof.
   unfold validate_tk, rate_closed01. intros H.
   destruct (tk_tax p) as [t|]; [|discriminate H]. peel H.
   destruct (tk_ratio p) as [r|]; [|discriminate H]. peel H. peel H.
-  destruct (c_amt (tk_fee p)) as [a|]; [|discriminate H]. peel H.
+  destruct (c_amt (tk_fee p)) as [a|]; [|discriminate H]. peel H. peel H.
   exists t, r, a. repeat split; try reflexivity; try assumption; lia.
 Qed.
 
@@ -363,17 +346,20 @@ Proof.
   lia.
 Qed.
 
+Lemma two195_two255 : two195 < two255. Proof. vm_compute. reflexivity. Qed.
+
 Lemma tk_issue_fee_spec p F a :
-  denom_valid (c_denom (tk_fee p)) = true -> c_amt (tk_fee p) = Some a -> 0 <= a < two255 -> P18 <= F ->
-  tk_issue_fee p F = inl Reject \/ exists fee, tk_issue_fee p F = inr fee /\ 1 <= fee < two255.
+  denom_valid (c_denom (tk_fee p)) = true -> c_amt (tk_fee p) = Some a -> 0 <= a < two195 -> P18 <= F ->
+  tk_issue_fee p F = inl Reject \/ exists fee, tk_issue_fee p F = inr fee /\ 1 <= fee < two195.
 Proof.
   intros Hd Ha Har HF. unfold tk_issue_fee. rewrite Ha, Hd.
   destruct (F =? 0) eqn:E0; [unfold P18 in HF; lia|]. cbv zeta.
   pose proof (dec_quo_factor_bounds a F ltac:(lia) HF) as [Hq0 Hq1].
+  pose proof two195_two255 as H95.
   set (q := dec_quo (dec_of_int a) F) in *.
   assert (Hqb : q <= two255 * P18) by (assert (a * P18 <= two255 * P18) by (apply Z.mul_le_mono_nonneg_r; [unfold P18|]; lia); lia).
   rewrite (dec_ok_small q) by (unfold P18 in *; lia). cbn [negb].
-  destruct (negb (c_denom (tk_fee p) =? 1)); [left; reflexivity|right].
+  destruct (negb (tk_registered (c_denom (tk_fee p)))); [left; reflexivity|right].
   eexists. split; [reflexivity|].
   destruct (P18 <? q) eqn:Eq.
   - rewrite dec_truncate_int_nonneg by assumption.
@@ -382,44 +368,55 @@ Proof.
     { apply Z.le_trans with (a * P18 / P18); [apply Z.div_le_mono; [reflexivity|assumption]|].
       rewrite Z.div_mul by discriminate. lia. }
     lia.
-  - unfold two255. simpl. lia.
+  - unfold two195. simpl. lia.
 Qed.
 
-Lemma to_min_ok_small x : 0 <= x < two255 -> to_min_ok x = true.
+(** an amount below 2^195 in the main unit stays below 2^255 in the min unit of any scale <= 18 *)
+Lemma to_min_bounds x sc : 0 <= x < two195 -> 0 <= sc <= 18 -> 0 <= to_min x sc < two255.
 Proof.
-  intros Hx. unfold to_min_ok, dec_of_int. apply dec_ok_small.
-  assert (x * P18 <= two255 * P18) by (apply Z.mul_le_mono_nonneg_r; [unfold P18|]; lia).
-  assert (0 <= x * P18) by (apply Z.mul_nonneg_nonneg; [|unfold P18]; lia). unfold P18 in *. lia.
+  intros Hx Hs. unfold to_min.
+  assert (H1 : 0 < 10 ^ sc) by (apply Z.pow_pos_nonneg; lia).
+  assert (H2 : 10 ^ sc <= 10 ^ 18) by (apply Z.pow_le_mono_r; lia).
+  assert (H3 : two195 * 10 ^ 18 < two255) by (vm_compute; reflexivity).
+  split; [apply Z.mul_nonneg_nonneg; lia|].
+  assert (x * 10 ^ sc <= x * 10 ^ 18) by (apply Z.mul_le_mono_nonneg_l; lia).
+  assert (x * 10 ^ 18 <= two195 * 10 ^ 18) by (apply Z.mul_le_mono_nonneg_r; lia).
+  lia.
+Qed.
+
+Lemma to_min_ok_small x sc : 0 <= x < two195 -> 0 <= sc <= 18 -> to_min_ok x sc = true.
+Proof.
+  intros Hx Hs. pose proof (to_min_bounds x sc Hx Hs) as Hb. unfold to_min in Hb.
+  unfold to_min_ok. apply dec_ok_small.
+  assert (x * 10 ^ sc * P18 <= two255 * P18) by (apply Z.mul_le_mono_nonneg_r; [unfold P18|]; lia).
+  assert (0 <= x * 10 ^ sc * P18) by (apply Z.mul_nonneg_nonneg; [|unfold P18]; lia). unfold P18 in *. lia.
 Qed.
 
 Lemma tk_no_panic p o r :
-  validate_tk p = Ok -> tk_small p -> tk_op_wf o -> tk_path p o = Some r -> res_outcome r <> Abort.
+  validate_tk p = Ok -> tk_op_wf o -> tk_path p o = Some r -> res_outcome r <> Abort.
 Proof.
-  intros Hv Hs Hwf Hp.
+  intros Hv Hwf Hp.
   destruct (validate_tk_facts p Hv) as (t & ra & a & Ht & Htr & Hr & Hrr & Hd & Ha & Hap).
-  unfold tk_small in Hs. rewrite Ha in Hs. simpl in Hs.
   assert (Hnp : forall w, r <> Panic w); [|destruct r; simpl; try discriminate; exfalso; eapply Hnp; reflexivity].
   intros w.
-  destruct o as [F bal|F bal|]; simpl in Hp; [| |discriminate Hp]; injection Hp as <-; simpl in Hwf;
-    destruct (tk_issue_fee_spec p F a Hd Ha ltac:(lia) Hwf) as [Hrej|(fee & Hfee & Hfr)].
+  destruct o as [F sc bal|F sc bal|c|c am b|c am b|]; simpl in Hp; try discriminate Hp; injection Hp as <-; simpl in Hwf.
+  3:{ unfold tk_deploy. repeat match goal with |- context [if ?c then _ else _] => destruct c end; discriminate. }
+  3:{ unfold tk_swap_to. repeat match goal with |- context [if ?c then _ else _] => destruct c end; discriminate. }
+  3:{ unfold tk_swap_from. repeat match goal with |- context [if ?c then _ else _] => destruct c end; discriminate. }
+  all: destruct Hwf as [HF Hsc];
+       destruct (tk_issue_fee_spec p F a Hd Ha Hap HF) as [Hrej|(fee & Hfee & Hfr)].
   - unfold tk_issue. rewrite Hrej. discriminate.
-  - unfold tk_issue. rewrite Hfee, (to_min_ok_small fee ltac:(lia)), Ht. cbn [negb].
-    apply fee_split_no_panic; lia.
+  - unfold tk_issue. rewrite Hfee, (to_min_ok_small fee sc ltac:(lia) Hsc), Ht. cbn [negb].
+    apply fee_split_no_panic; [apply to_min_bounds; lia|lia].
   - unfold tk_mint. rewrite Hrej. discriminate.
   - unfold tk_mint. rewrite Hfee, Hr. cbv zeta. rewrite dec_mul_of_int.
+    pose proof two195_two255.
     rewrite (dec_ok_small (fee * ra)) by (apply mul_rate_bounds; lia). cbn [negb].
     pose proof (tax_bounds fee ra ltac:(lia) Hrr) as [Hq0 Hqa].
     destruct (dec_truncate_int (fee * ra) <? 0) eqn:E1; [lia|].
     rewrite to_min_ok_small by lia. cbn [negb]. rewrite Ht.
-    apply fee_split_no_panic; lia.
+    apply fee_split_no_panic; [apply to_min_bounds; lia|lia].
 Qed.
-
-Definition tk_big : tk_params :=
-  mkTk (Some 400000000000000000) (mkCoin 1 (Some (2 ^ 256 - 1))) (Some 100000000000000000) true 0.
-
-Lemma tk_refuted :
-  validate_tk tk_big = Ok /\ tk_op_wf (TkIssue P18 0) /\ tk_path tk_big (TkIssue P18 0) = Some (Panic 503).
-Proof. repeat split; vm_compute; try reflexivity. discriminate. Qed.
 
 (** ** 3. The update (the same skeleton [update_with] for the five modules) *)
 Section Update.
@@ -466,6 +463,50 @@ Section Update.
     - rewrite He. simpl. exact (Hp Hv).
   Qed.
 End Update.
+
+(** *** genesis in two stages *)
+Lemma init_genesis_guarded {P} (vg sp : P -> outcome) gx p cur :
+  vg p <> Ok \/ sp p <> Ok ->
+  snd (init_genesis vg sp gx p cur) = cur /\ fst (init_genesis vg sp gx p cur) <> Ok.
+Proof.
+  intros H. unfold init_genesis.
+  destruct (vg p); destruct (sp p); try (destruct (gx p)); simpl; try (split; [reflexivity|discriminate]);
+    destruct H; congruence.
+Qed.
+
+Lemma init_genesis_accepted {P} (vg sp : P -> outcome) gx p cur :
+  fst (init_genesis vg sp gx p cur) = Ok -> vg p = Ok /\ sp p = Ok /\ snd (init_genesis vg sp gx p cur) = p.
+Proof.
+  unfold init_genesis. destruct (vg p); destruct (sp p); try (destruct (gx p)); simpl; intros H;
+    try discriminate H; auto.
+Qed.
+
+(** [update_with ... 2] (the via = 2 branch used by the histories) is the two-stage genesis whenever
+    the first stage accepts at least what the second accepts *)
+Lemma update_genesis_is_two_stage {P} (validate vg : P -> outcome) gx p cur :
+  (validate p = Ok -> vg p = Ok) ->
+  snd (update_with validate gx 2 p cur) = snd (init_genesis vg validate gx p cur)
+  /\ (fst (update_with validate gx 2 p cur) = Ok <-> fst (init_genesis vg validate gx p cur) = Ok).
+Proof.
+  intros Hsub. unfold update_with, init_genesis. change (2 =? 1) with false. change (2 =? 2) with true.
+  destruct (validate p) eqn:Ev.
+  - rewrite (Hsub eq_refl). cbn [andb]. destruct (gx p); simpl; split; try reflexivity; split; auto; discriminate.
+  - destruct (vg p); simpl; split; try reflexivity; split; discriminate.
+  - destruct (vg p); simpl; split; try reflexivity; split; discriminate.
+Qed.
+
+(** farm: what ValidateGenesis checks is implied by Params.Validate *)
+Lemma vg_fm_weaker p : validate_fm p = Ok -> vg_fm p = Ok.
+Proof.
+  intros Hv. destruct (validate_fm_facts p Hv) as (a & t & Hd & Ha & Hap & _).
+  unfold vg_fm. rewrite Hd, Ha. cbn [negb]. destruct (a <? 0) eqn:E; [lia|reflexivity].
+Qed.
+
+(** ... and strictly weaker: a tax rate of 2 passes ValidateGenesis and is rejected by SetParams only *)
+Lemma vg_fm_single_guard :
+  let p := mkFm (mkCoin 1 (Some 5000)) 2 (Some 2000000000000000000) in
+  vg_fm p = Ok /\ validate_fm p = Rej /\ init_genesis vg_fm validate_fm (fun _ => true) p fm_defaults = (Abort, fm_defaults).
+Proof. cbv zeta. repeat split; vm_compute; reflexivity. Qed.
 
 (** ** 4. Histories *)
 Definition submitted_valid (st : pstep) : Prop :=
@@ -529,31 +570,11 @@ Proof. repeat split; vm_compute; reflexivity. Qed.
 Lemma init_valid : ps_valid ps_init.
 Proof. exact defaults_validate_lemma. Qed.
 
-Lemma init_small : ps_small ps_init.
-Proof.
-  split; [vm_compute; reflexivity|]. split; [vm_compute; reflexivity|]. split; [vm_compute; reflexivity|].
-  split; [exact (Forall_nil _)|vm_compute; reflexivity].
-Qed.
-
-Lemma step_keeps_small s st : step_wf st -> ps_small s -> ps_small (pstep_state s st).
-Proof.
-  intros Hwf (H1 & H2 & H3 & H4 & H5).
-  destruct st; simpl in *; unfold ps_small; simpl; repeat split; try assumption;
-    unfold update_cs, update_fm, update_tk, update_ht, update_sv; apply update_keeps; auto.
-Qed.
-
-Lemma run_keeps_small h : forall s, Forall step_wf h -> ps_small s -> ps_small (run s h).
-Proof.
-  unfold run. induction h as [|st h IH]; intros s Hwf Hs; [exact Hs|].
-  inversion Hwf as [|? ? Hst Hrest]; subst. simpl. apply IH; [exact Hrest|].
-  apply step_keeps_small; assumption.
-Qed.
-
-(** in a state whose stored sets validate and are small, no well-formed operation aborts *)
+(** in a state whose stored sets validate, no well-formed operation aborts *)
 Lemma op_no_abort s st r :
-  ps_valid s -> ps_small s -> step_wf st -> op_result s st = Some r -> res_outcome r <> Abort.
+  ps_valid s -> step_wf st -> op_result s st = Some r -> res_outcome r <> Abort.
 Proof.
-  intros (V1 & V2 & V3 & V4 & V5) (S1 & S2 & S3 & S4 & S5) Hwf Hr.
+  intros (V1 & V2 & V3 & V4 & V5) Hwf Hr.
   destruct st; simpl in Hr; try discriminate Hr; simpl in Hwf.
   - eapply cs_no_panic; eassumption.
   - eapply fm_no_panic; eassumption.
@@ -563,21 +584,8 @@ Proof.
 Qed.
 
 Lemma no_operation_aborts_lemma h st r :
-  Forall step_wf h -> step_wf st -> op_result (run ps_init h) st = Some r -> res_outcome r <> Abort.
+  step_wf st -> op_result (run ps_init h) st = Some r -> res_outcome r <> Abort.
 Proof.
-  intros Hh Hst. apply op_no_abort; [|  |exact Hst].
-  - apply run_keeps_valid. exact init_valid.
-  - apply run_keeps_small; [exact Hh|exact init_small].
-Qed.
-
-(** without [step_wf] on the update steps (the [*_small] part) the statement fails: the authority
-    stores a validated set with an extreme fee amount, and the next pool creation aborts *)
-Lemma no_operation_aborts_refuted_lemma :
-  exists h st w,
-    upd_outcome ps_init (hd st h) = Some Ok /\ ps_valid (run ps_init h)
-    /\ op_result (run ps_init h) st = Some (Panic w).
-Proof.
-  exists [UpdCS 0 cs_big], (OpCS (CsCreatePool 0 0 0 1 1)), 103.
-  split; [vm_compute; reflexivity|]. split; [|vm_compute; reflexivity].
+  intros Hst. apply op_no_abort; [|exact Hst].
   apply run_keeps_valid. exact init_valid.
 Qed.
